@@ -750,6 +750,10 @@ def splice_body(em, body, c, fnid):
             elif t == "}":
                 depth -= 1
 
+    if c.opts.get("ext"):
+        em.add("    broadcast use crate::base::group_ext;")
+    if c.opts.get("prefix"):
+        em.add("    broadcast use crate::base::group_prefix;")
     if c.entry:
         for ln in c.entry:
             em.add("    " + ln.strip())
@@ -892,7 +896,7 @@ def assume_proofs(text):
     return re.sub(r"(?m)^(\s*)(pub\s+)?(broadcast\s+)?proof\s+fn\s", lambda m: m.group(1) + "#[verifier::external_body] " + (m.group(2) or "") + (m.group(3) or "") + "proof fn ", text)
 
 
-def build_unit(idx, vc_verify, vc_trusted, spec_files, verif_root, only_fns=None, spec_import=()):
+def build_unit(idx, vc_verify, vc_trusted, spec_files, verif_root, only_fns=None, spec_import=(), module_ext=True):
     """vc_verify: .vc files whose @fn entries are verified in this unit; vc_trusted: imported as contracts only.
     returns (text, origin map, info dict)"""
     em = Emitter()
@@ -963,11 +967,12 @@ def build_unit(idx, vc_verify, vc_trusted, spec_files, verif_root, only_fns=None
     em.add("pub mod code {")
     em.add(MOD_USES + "use crate::base::*;")
     uses = ["crate::ax::%s" % a for a in axnames]
-    for g in re.findall(r"broadcast\s+group\s+([A-Za-z0-9_]+)", open(os.path.join(verif_root, "prelude", "base.rs")).read()):
-        uses.append("crate::base::%s" % g)
+    # (prelude group_prefix is opt-in per function: `@opt prefix=1`)
     for (f, (kind, arg, text)) in all_specs:
         if kind == "spec":
             for g in re.findall(r"broadcast\s+group\s+([A-Za-z0-9_]+)", text):
+                if g == "group_ext" and not module_ext:
+                    continue   # quadratic in the number of String/Vec views: opted into per function (`@opt ext=1`)
                 uses.append("crate::base::%s" % g)
     if uses:
         em.add("broadcast use {%s};" % ", ".join(uses))
